@@ -282,7 +282,9 @@ def identify(
     import logging
 
     if exclude_patterns:
-        exclude_patterns = set(pattern.encode() for pattern in exclude_patterns)
+        # patterns are matched against file names, which are bytes: encode them the
+        # way file name arguments are (a pattern that is not valid UTF-8 is legitimate)
+        exclude_patterns = set(os.fsencode(pattern) for pattern in exclude_patterns)
 
     if verify and len(objects) != 1:
         raise click.BadParameter("verification requires a single object")
